@@ -270,6 +270,9 @@ class Interp(ExprMixin, CallMixin):
             if k in ("list", "set"):
                 return AV(types=frozenset({k}), elem=self.annotation_av(fi, inner))
             if k == "dict":
+                if isinstance(inner, ast.Tuple) and len(inner.elts) == 2:
+                    return AV(types=frozenset({"dict"}), key=self.annotation_av(fi, inner.elts[0]),
+                              elem=self.annotation_av(fi, inner.elts[1]))
                 return AV(types=frozenset({"dict"}))
             if k == "tuple":
                 return AV(types=frozenset({"tuple"}))
